@@ -67,6 +67,14 @@ CLAIMS = {
              "max_number_of_live_tokens in every reachable state (pipe_token_bound, serial input filter). The buffer model is compared op by op with the real input_buffer; whole pipelines run with real threads under the property oracle.",
         note="Not modelled: execute_filter's control flow around the buffers, parallel input filters' token handling, end-of-input and cancellation paths (oracle runs only).",
         ref="4/C07"),
+    "C04": dict(
+        technique="Coq: executable small-step model of the bind/propagate protocol with both mutex disciplines; refutation theorem (explicit interleaving) for the code as found; exhaustive evaluation of all interleavings of small configurations for the repaired protocol; real-thread directed replay of the witness",
+        text="The model refutes 'every bound descendant is cancelled' for the two-mutex protocol with an explicit schedule (theorem), which the check replays on the real library with a widened race window "
+             "(defect found, repaired by fix: commit 27dc20e). For the repaired protocol every interleaving of the listed small configurations (up to 4 contexts, 3 threads) is shown inside Coq to reach "
+             "quiescence with all bound descendants cancelled and nothing else cancelled.",
+        note="PARTIAL: the general (unbounded) theorem for the repaired protocol, one-winner and no-spurious for arbitrary trees are not yet proved; the model is hand-written at lock-block granularity and is tied "
+             "to the code only through the directed replay and random real-thread runs, not step by step. SC only.",
+        ref="4/C04, 8(a)"),
 }
 
 REASONS_TODO = "check not built yet in this round; the design (DESIGN.md section 4) applies and it is planned — listed here only because no check is registered"
